@@ -595,7 +595,7 @@ def x_tensor_values(body) -> list:
     return out
 
 
-def inverse_verdict(module, v, kind, tname):
+def inverse_verdict(module, v, kind, tname, consts=None):
     """(ok, why): is `v` the inverse of the branch's transform applied to the requested value json_object['tensor']?"""
     from props.c08_integrals import Sym
     from sa.poly import Rat, ToRat
@@ -606,8 +606,12 @@ def inverse_verdict(module, v, kind, tname):
         else:
             break
     mentions_requested = any(isinstance(x, ast.Subscript) and isinstance(x.slice, ast.Constant) and x.slice.value == 'tensor' for x in ast.walk(e))
-    if isinstance(e, ast.Call) and isinstance(e.func, ast.Attribute) and e.func.attr == 'inv' and isinstance(e.func.value, ast.Name) and e.func.value.id == 'transform':
-        return (mentions_requested, '' if mentions_requested else f"`{ast.unparse(v)[:60]}` does not start from the requested value")
+    if isinstance(e, ast.Call) and isinstance(e.func, ast.Attribute) and e.func.attr == 'inv':
+        recv = e.func.value
+        same = (isinstance(recv, ast.Name) and recv.id == 'transform') or (isinstance(recv, ast.Call) and (dotted_name(recv.func) or '').split('.')[-1] == tname)
+        if same:
+            return (mentions_requested, '' if mentions_requested else f"`{ast.unparse(v)[:60]}` does not start from the requested value")
+        return (False, f"`{ast.unparse(v)[:60]}` applies the inverse of another transform than {tname}")
     # a hand-written inverse: verify forward(v) == p algebraically
     sym = Sym()
 
@@ -617,6 +621,11 @@ def inverse_verdict(module, v, kind, tname):
             return Rat.const(Fraction(str(x.value)))
         if isinstance(x, ast.Name) and x.id in env:
             return env[x.id]
+        if isinstance(x, ast.Name) and consts and x.id in consts:
+            from fractions import Fraction
+            return Rat.const(Fraction(str(consts[x.id])))
+        if isinstance(x, ast.Name) and x.id in ('loc', 'scale'):
+            return Rat.sym(x.id)
         if isinstance(x, ast.Subscript) and isinstance(x.slice, ast.Constant) and x.slice.value == 'tensor':
             return Rat.sym('p')
         if isinstance(x, ast.Subscript) and 'LOWER' in ast.unparse(x.slice):
@@ -683,12 +692,185 @@ def inverse_verdict(module, v, kind, tname):
             fwd = exp_of(g)
         elif kind == 'lower>0':
             fwd = g + Rat.sym('L')
+        elif kind == 'affine(loc,scale)':
+            from fractions import Fraction
+            sc = Rat.const(Fraction(str(consts['scale']))) if consts and 'scale' in consts else Rat.sym('scale')
+            fwd = g * sc + Rat.sym('loc')
         else:
             return (False, f"`{ast.unparse(v)[:60]}` is not {tname}().inv(…) and no closed form is known for this transform")
         ok = sym.equal(fwd, p_)
         return (ok, '' if ok else f"`{ast.unparse(v)[:60]}` maps the requested value p to x with {tname}(x) = {repr(fwd)[:80]} ≠ p")
     except Unsupported as u:
         return (False, f"`{ast.unparse(v)[:60]}`: {u}")
+
+
+HELPER_KIND = {'SigmoidTransform': 'unit-interval', 'ExpTransform': 'lower<=0', 'AffineTransform': 'affine(loc,scale)', 'StickBreakingTransform': 'simplex'}
+
+
+def check_advi_transforms(ctx, rep):
+    """the variational builders turn constraints into transforms through their own helpers: same obligations as make_unconstrained"""
+    am = ctx.prog.module(f"{CLI}.advi")
+    helpers = {}
+    for name, fn in am.functions.items():
+        if not name.startswith('apply_') or name == 'apply_transforms_for_fullrank':
+            continue
+        tset = [st.value.value for st in ast.walk(fn) if isinstance(st, ast.Assign) and len(st.targets) == 1 and isinstance(st.targets[0], ast.Subscript)
+                and isinstance(st.targets[0].slice, ast.Constant) and st.targets[0].slice.value == 'transform' and isinstance(st.value, ast.Constant)]
+        if len(set(tset)) != 1:
+            continue
+        helpers[name] = (fn, tset[0].split('.')[-1])
+    if len(helpers) < 4:
+        raise AnalysisError(f"only {len(helpers)} apply_* transform helpers found in cli/advi.py")
+    flow = _flow(ctx)
+    for name, (fn, tname) in sorted(helpers.items()):
+        W = where(am, fn)
+        kind = HELPER_KIND.get(tname)
+        # parameters that every call site leaves at their default are constants inside the helper
+        sites = [c for m in cli_modules(ctx) for c in ast.walk(m.tree) if isinstance(c, ast.Call) and isinstance(c.func, ast.Name) and c.func.id == name]
+        params = [a.arg for a in fn.args.args]
+        defaults = dict(zip(params[len(params) - len(fn.args.defaults):], fn.args.defaults))
+        const_params = {}
+        for p_, d in defaults.items():
+            i = params.index(p_)
+            if all(len(c.args) <= i and not any(k.arg == p_ for k in c.keywords) for c in sites) and isinstance(d, ast.Constant):
+                const_params[p_] = d.value
+        body = _prune_constant_tests(fn, const_params)
+        stores = x_tensor_values(body)
+        sets_type = any(isinstance(st, ast.Assign) and isinstance(st.targets[0], ast.Subscript) and isinstance(st.targets[0].slice, ast.Constant)
+                        and st.targets[0].slice.value == 'type' and isinstance(st.value, ast.Constant) and st.value.value == 'TransformedParameter' for st in fn.body)
+        dels = any(isinstance(st, ast.Delete) and any(isinstance(t, ast.Subscript) and isinstance(t.slice, ast.Constant) and t.slice.value == 'tensor' for t in st.targets)
+                   for st in ast.walk(fn))
+        verdicts = []
+        for v in stores:
+            if kind == 'simplex' and isinstance(v, ast.Constant) and v.value == 0.0:
+                verdicts.append((True, ''))      # a simplex given by `full` + one fill value is uniform, whose stick-breaking pre-image is 0
+                continue
+            site_consts = dict(const_params)
+            for p_ in params:
+                i = params.index(p_)
+                vals = {c.args[i].value for c in sites if len(c.args) > i and isinstance(c.args[i], ast.Constant)}
+                if sites and all(len(c.args) > i and isinstance(c.args[i], ast.Constant) for c in sites) and len(vals) == 1 and isinstance(next(iter(vals)), (int, float)):
+                    site_consts[p_] = next(iter(vals))
+            verdicts.append(inverse_verdict(am, v, kind, tname, site_consts))
+        why_not = [w for ok_, w in verdicts if not ok_]
+        rep.check('C19.U', f"{name}::initial-value-through-the-same-inverse", bool(stores) and not why_not and sets_type and dels and kind is not None, W,
+                  {'transform': tname, 'stores_checked': len(stores), 'not_the_inverse': why_not, 'constant_parameters': const_params},
+                  f"{name}: installs {tname} but a value stored as the unconstrained tensor is not its inverse of the requested value" + (f": {why_not[0]}" if why_not else ''))
+        if kind == 'affine(loc,scale)':
+            # (p − loc) is the inverse only for scale 1: every call site must pass it
+            i = params.index('scale') if 'scale' in params else None
+            bad = [norm_text(c)[:70] for c in sites if i is None or len(c.args) <= i or not (isinstance(c.args[i], ast.Constant) and c.args[i].value in (1, 1.0))]
+            uses_scale = any(isinstance(x, ast.Name) and x.id == 'scale' for v in stores for x in ast.walk(v))
+            rep.check('C19.U', f"{name}::unit-scale-at-every-call-site", uses_scale or not bad, W, {'call_sites': len(sites), 'non_unit': bad},
+                      f"{name} initialises x with (p − loc), the inverse of AffineTransform(loc, scale) only for scale 1, but is called with another scale: {bad[:2]}")
+    # dispatchers
+    for dname in ('create_meanfield', 'apply_transforms_for_fullrank'):
+        fn = am.functions.get(dname)
+        if fn is None:
+            raise AnalysisError(f"{dname} not found")
+        seen = {}
+        for c in ast.walk(fn):
+            if isinstance(c, ast.Call) and isinstance(c.func, ast.Name) and c.func.id in helpers:
+                conds = []
+                p, child = getattr(c, '_parent', None), c
+                while p is not None and p is not fn:
+                    if isinstance(p, ast.If):
+                        inbody = any(child is x for b in p.body for x in ast.walk(b))
+                        conds.append((ast.unparse(p.test).replace('"', "'"), inbody))
+                    child, p = p, getattr(p, '_parent', None)
+                kind = _constraint_kind(conds)
+                tname = helpers[c.func.id][1]
+                arg0 = ast.unparse(c.args[0]) if c.args else ''
+                if kind == 'lower>0' and arg0.endswith("['x']") and tname == 'ExpTransform':
+                    kind = 'lower<=0'        # the shifted parameter (lower bound 0) is then made positive
+                want = TRANSFORM_FOR.get(kind)
+                key = f"{dname}::{kind}::{c.func.id}"
+                seen.setdefault(kind, []).append(tname)
+                rep.check('C19.U', key + '::transform-matches-constraint', kind is not None and want == tname, where(am, c),
+                          {'guard': ' & '.join(('' if pos else 'not ') + t for t, pos in conds)[:200], 'transform': tname},
+                          f"{dname}: under `{conds[0][0][:80] if conds else ''}` the constraint is {kind} but the helper installs {tname} ({want} maps onto that set)")
+        rep.check('C19.U', f"{dname}::all-four-constraints-handled", set(TRANSFORM_FOR) <= set(seen), where(am, fn), {'seen': {str(k): v for k, v in seen.items()}},
+                  f"{dname} must turn (0,1), lower>0, lower≤0 and simplex constraints into transforms")
+    # the only bounded intervals the builders emit are (0, 1) or degenerate (fixed value): the bounded case is mapped by a sigmoid
+    pairs = {}
+    for m in cli_modules(ctx):
+        for fn in [n for n in ast.walk(m.tree) if isinstance(n, ast.FunctionDef)]:
+            for st in ast.walk(fn):
+                if isinstance(st, ast.Assign):
+                    for t in st.targets:
+                        if isinstance(t, ast.Subscript) and isinstance(t.value, ast.Name) and 'CONSTRAINT.' in ast.unparse(t.slice):
+                            which = 'lower' if 'LOWER' in ast.unparse(t.slice) else ('upper' if 'UPPER' in ast.unparse(t.slice) else None)
+                            if which:
+                                pairs.setdefault((m.name.split('.')[-1], fn.name, t.value.id), {}).setdefault(which, []).append(st.value)
+    n_b = 0
+    for (mod, fname, var), d in sorted(pairs.items()):
+        if 'upper' not in d:
+            continue
+        n_b += 1
+        lows = {ast.literal_eval(v) if isinstance(v, ast.Constant) else ast.unparse(v) for v in d.get('lower', [])}
+        ups = {ast.literal_eval(v) if isinstance(v, ast.Constant) else ast.unparse(v) for v in d['upper']}
+        ok = all((lo == 0 and up == 1) or lo == up or (lo == 0 and up == 0) or (isinstance(up, str) and up in {x if isinstance(x, str) else None for x in lows} | {f"{var}[CONSTRAINT.LOWER.value]"})
+                 for lo in (lows or {None}) for up in ups)
+        rep.check('C19.U', f"{mod}.{fname}::{var}::bounded-constraint-is-unit-interval-or-fixed", ok, f"{mod}.py:{fname}", {'lower': sorted(map(str, lows)), 'upper': sorted(map(str, ups))},
+                  f"{fname}: `{var}` gets bounds {sorted(map(str, lows))}–{sorted(map(str, ups))}; bounded parameters are mapped with a sigmoid, which only covers (0, 1)")
+    if n_b < 5:
+        raise AnalysisError(f"only {n_b} bounded parameters found in the CLI")
+
+
+def _constraint_kind(conds):
+    flat = [(c, pos) for c, pos in conds]
+    for c, pos in flat:
+        if 'SIMPLEX' in c and pos:
+            return 'simplex'
+    for c, pos in flat:
+        if "LOWER.value] > 0" in c:
+            return 'lower>0' if pos else 'lower<=0'
+        if "LOWER.value] == 0" in c and 'UPPER' not in c and pos:
+            return 'lower<=0'
+    for c, pos in flat:
+        if 'LOWER.value in' in c and 'UPPER.value in' in c and pos:
+            return 'unit-interval'
+        if ("LOWER.value] != " in c or "== 0" in c and "== 1" in c) and pos:
+            return 'unit-interval'
+    for c, pos in flat:
+        if 'LOWER.value in' in c and 'UPPER' not in c and pos:
+            return 'lower<=0'
+    return None
+
+
+def _prune_constant_tests(fn, consts):
+    """statements of fn with `if <param> is None / is not None` resolved for parameters that are constant at every call site"""
+    out = []
+
+    def test_value(t):
+        if isinstance(t, ast.Compare) and len(t.ops) == 1 and isinstance(t.left, ast.Name) and t.left.id in consts and isinstance(t.comparators[0], ast.Constant):
+            a, b = consts[t.left.id], t.comparators[0].value
+            if isinstance(t.ops[0], ast.Is):
+                return a is b
+            if isinstance(t.ops[0], ast.IsNot):
+                return a is not b
+            if isinstance(t.ops[0], ast.Eq):
+                return a == b
+        return None
+
+    def walk(stmts):
+        res = []
+        for st in stmts:
+            if isinstance(st, ast.If):
+                v = test_value(st.test)
+                if v is True:
+                    res += walk(st.body)
+                    continue
+                if v is False:
+                    res += walk(st.orelse)
+                    continue
+                st2 = copy.copy(st)
+                st2.body, st2.orelse = walk(st.body), walk(st.orelse)
+                res.append(st2)
+            else:
+                res.append(st)
+        return res
+    return walk(fn.body)
 
 
 def check_make_unconstrained(ctx, rep):
@@ -785,7 +967,7 @@ def run(ctx, rep):
     rep.rule('C19.N', "tensor-only torch functions are never applied to a plain Python number in the builders")
     rep.not_decided += ["finiteness of density and gradient at the initial point", "pairwise option coverage at run time", "plugins"]
     from props import c19_ids, c19_flow
-    steps = ((check_types_and_keys, 'C19.K'), (check_jacobians, 'C19.J'), (check_make_unconstrained, 'C19.U'), (c19_ids.check_ids, 'C19.R'),
+    steps = ((check_types_and_keys, 'C19.K'), (check_jacobians, 'C19.J'), (check_make_unconstrained, 'C19.U'), (check_advi_transforms, 'C19.U'), (c19_ids.check_ids, 'C19.R'),
              (c19_flow.check_exhaustive, 'C19.E'), (c19_flow.check_pynum, 'C19.N'))
     for f, rule in steps:
         try:
